@@ -8,7 +8,7 @@ from pyvc.api import Task
 PROPERTY = "C46"
 PC = "src/pkgcore/scripts/pclean.py"
 LEVEL = "other"
-EXPLANATION = ("bounded stand-in only: _dist_validate_args is an argparse completion hook of ~110 lines that mixes repository iteration with name-based regular "
+EXPLANATION = ("the selection is a bounded stand-in (the removal runner and the file filters are proved): _dist_validate_args is an argparse completion hook of ~110 lines that mixes repository iteration with name-based regular "
                "expressions built at run time (re.split / re.compile on package names) and lazily evaluated generators; the meaning of the target selection is a "
                "statement about those regular expressions, which the self-built generator cannot encode.  The real hook is run on seeded repositories, installed "
                "sets and distdirs under every option combination and its removal list is compared with the keep-rules of the statement.")
@@ -20,7 +20,10 @@ MANIFEST = {
             "exclusion pattern and a size filter: the real _dist_validate_args computes the removal list in a scratch distdir; it must "
             "contain only files of the distdir that pass the file filters and, with targets, that carry a target package's name, and no "
             "file used by an installed package (-I), by any package in the tree (-E), by a fetch-restricted package (-f) or by a package "
-            "matching the exclusion pattern.",
+            "matching the exclusion pattern.  Under contract and proved for all inputs: the removal runner _remove (any number of selected "
+            "(function, target) pairs: each function applied to its own target exactly once and in order, nothing applied under --pretend or when "
+            "stdout is not a terminal, status 1 exactly when a removal failed) and the --modified / --size filters (a file passes exactly when it is "
+            "older resp. smaller than the given bound).  The selection itself stays bounded, hence level 'other'.",
     "note": "Trusted: the reference reading of 'selected by the cleaning targets' (the file is a distfile of a matched package or its name "
             "starts with a matched package's name); repository iteration (C08); package metadata.",
 }
@@ -170,8 +173,95 @@ def enum_cleaning(seed):
             "4 targets x 2 exclusion patterns x 8 combinations of -I -E -f x 2 size filters; removal list compared with the keep rules", "cases": cases, "failures": fails}
 
 
+# ---------------------------------------------------------------- the removal runner under contract ----
+def t_remove(ex):
+    """_remove: for any number of selected (function, target) pairs, each function is applied to its own target exactly once, in order,
+    unless --pretend (then none is); nothing else is touched; the exit status is 1 exactly when some removal failed"""
+    import sys
+    import z3
+    from pyvc.api import call, Interp
+    from pyvc.interp import LoopSpec, PyRaise
+    from pyvc.loops import IterView
+    from pyvc.models import Model, ModelHost
+    from pyvc.sym import KInt, KBool, KStr, KSeq, SBool, SInt, SObj, And, Or, Not, Implies, OutOfSubset
+    tty = bool(ex.choose(2))
+    pretend = bool(ex.choose(2))
+    P = f"C46._remove[{'tty' if tty else 'not a tty'}, {'pretend' if pretend else 'real'}]"
+    targets = KSeq(KStr, "list").fresh("targets")
+    verbosity = KInt.fresh("verbosity")
+    g = types.SimpleNamespace(attempts=SInt(z3.IntVal(0)), failed=SBool(z3.BoolVal(False)))
+
+    def rm(it_, target):
+        ex.oblige(f"{P}.effect.function_applied_to_its_own_target_in_order", SBool(target.t == targets.at(g.attempts).t), kind="effect-invariant")
+        ex.oblige(f"{P}.effect.nothing_removed_when_pretending_or_listing", tty and not pretend, kind="effect-invariant")
+        g.attempts = g.attempts + 1
+        if ex.choose(2) == 1:
+            g.failed = SBool(z3.BoolVal(True))
+            raise PyRaise(OSError(13, "Permission denied"))
+    rmfunc = Model(rm, "removal function")
+
+    class Out(ModelHost):
+        def getattr(self, it_, name):
+            if name == "write":
+                return Model(lambda it__, *a, **k: None, "formatter.write")
+            raise OutOfSubset(name)
+    if tty:
+        view = IterView(targets.length(), lambda k: (rmfunc, targets.at(k)), "options.remove")
+    else:
+        view = [(rmfunc, "/d/a"), (rmfunc, "/d/b")]
+    options = SObj(types.SimpleNamespace, {"remove": view, "pretend": pretend, "verbosity": verbosity, "prog": "pclean"})
+
+    def inv(L, k):
+        return And(g.attempts == (0 if pretend else k), Or(L.ret == 0, L.ret == 1), Implies(g.attempts == 0, Not(g.failed)), SBool((L.ret.t == 1) == g.failed.t) if hasattr(L.ret, "t") else (L.ret == 1) == g.failed)
+
+    def on_havoc(it_):
+        g.attempts = KInt.fresh("attempts")
+        g.failed = KBool.fresh("failed")
+    it = Interp(ex, label=P, models={sys.stdout.isatty: lambda it_: tty}, loops={("_remove", 0): LoopSpec(inv, on_havoc=on_havoc)})
+    ex.inputs.update({"n_targets": targets.length(), "verbosity": verbosity})
+    out = call(it, it.target(PC, "_remove"), options, Out(), Out())
+    ex.oblige(f"{P}.raises.nothing", not out.raised, kind="exceptional-postcondition")
+    if out.raised:
+        return
+    if tty and not pretend:
+        ex.oblige(f"{P}.ensures.every_selected_target_attempted_exactly_once", g.attempts == targets.length())
+        ex.oblige(f"{P}.ensures.status_1_exactly_when_a_removal_failed", SBool((out.value.t == 1) == g.failed.t) if hasattr(out.value, "t") else (out.value == 1) == g.failed)
+    else:
+        ex.oblige(f"{P}.ensures.nothing_removed", g.attempts == 0)
+        ex.oblige(f"{P}.ensures.status_0", out.value == 0)
+
+
+def t_file_filters(ex):
+    """--modified / --size: a file passes the registered filters exactly when it is older than the bound and smaller than the bound (each only if given)"""
+    import z3
+    from pyvc.api import call, Interp
+    from pyvc.sym import KInt, SBool, SObj, And
+    import pkgcore.scripts.pclean as M
+    has_m, has_s = bool(ex.choose(2)), bool(ex.choose(2))
+    P = f"C46.file_filters[modified={'set' if has_m else 'None'}, size={'set' if has_s else 'None'}]"
+    modified, size, mtime, fsize = KInt.fresh("modified"), KInt.fresh("size"), KInt.fresh("st_mtime"), KInt.fresh("st_size")
+    it = Interp(ex, label=P, models={os.stat: lambda it_, p, **k: SObj(os.stat_result, {"st_mtime": mtime, "st_size": fsize})})
+    filters = SObj(M.Filters, {"_filters": []})
+    ns = SObj(types.SimpleNamespace, {"modified": modified if has_m else None, "size": size if has_s else None, "file_filters": filters})
+    out = call(it, it.target(PC, "_setup_file_opts"), ns)
+    ex.oblige(f"{P}.raises.nothing", not out.raised, kind="exceptional-postcondition")
+    if out.raised:
+        return
+    from pyvc import models as MM
+    run = MM.getattr_(it, filters, "run")
+    res = call(it, run, "/distdir/file")
+    ex.oblige(f"{P}.run.raises.nothing", not res.raised, kind="exceptional-postcondition")
+    if res.raised:
+        return
+    want = And(mtime < modified if has_m else True, fsize < size if has_s else True)
+    got = res.value if isinstance(res.value, SBool) else SBool(z3.BoolVal(bool(res.value)))
+    ex.oblige(f"{P}.ensures.passes_exactly_when_older_and_smaller_than_the_given_bounds", got == want)
+
+
 def tasks():
-    return [Task("C46.dist_cleaning", None, [(PC, "_dist_validate_args")], enumerate=enum_cleaning)]
+    return [Task("C46.dist_cleaning", None, [(PC, "_dist_validate_args")], enumerate=enum_cleaning),
+            Task("C46._remove", t_remove, [(PC, "_remove")]),
+            Task("C46.file_filters", t_file_filters, [(PC, "_setup_file_opts"), (PC, "Filters.run"), (PC, "Filters.append")])]
 
 
 REPLAY = {}
